@@ -436,7 +436,7 @@ class Engine:
             return ("se", v.name)
         if isinstance(v, Ref):
             if v.key is not None:
-                return ("r", v.key, v.proj)
+                return ("r", v.key, tuple(_pkey(x) for x in v.proj))
             return ("rv", self.term(v.val))
         if isinstance(v, Str):
             return ("str", v.s if v.s is not None else ("sym", v.sym))
